@@ -35,7 +35,7 @@ func init() {
 	props["C03"] = &propDef{gen: genC03, rule: "merge plans as C02; DocumentNumbers(), Count() and every survivor's content vs Lean Spec.merge; non-trivial = some non-empty deletion bitmap"}
 	props["C04"] = &propDef{gen: genC04, rule: "built / merged segments persisted and loaded memory-backed, file-backed and re-loaded; full read script on each vs Lean Spec; non-trivial = segment has documents"}
 	props["C05"] = &propDef{gen: genC05, alsoReuse: true, rule: "iterator scripts (Next/Advance with non-decreasing targets/walk, 8 flag combinations, exclusion nil/empty/partial/all, ReplaceActual) on built (fixed chunk sizes 1-5) and merged (1-hit) segments vs Lean Spec.iterRun; non-trivial = script has an Advance, a non-empty exclusion and a multi-chunk term"}
-	props["C06"] = &propDef{gen: genC06, rule: "stored-field visits in random orders with early stop on built/loaded/merged segments incl. >128 documents, plus a sweep of the size of block 1 across the reused decompression buffer's capacity; non-trivial = more than one 128-document block"}
+	props["C06"] = &propDef{gen: genC06, extra: legC06big, rule: "stored-field visits in random orders with early stop on built/loaded/merged segments incl. >128 documents, plus a sweep of the size of block 1 across the reused decompression buffer's capacity; non-trivial = more than one 128-document block"}
 	props["C07"] = &propDef{gen: genC07, rule: "doc-value readers on random field subsets/orders, visiting forwards, backwards, randomly and ping-pong across 1024-document chunk edges; non-trivial = more than one doc-value chunk, or a small merged/built case with documents"}
 	props["C08"] = &propDef{gen: genC08, alsoReuse: true, rule: "dictionary iterators with nil/non-empty [start,end) bounds and any/prefix automata, Contains and PostingsList on built and merged (1-hit mixed) segments, unknown fields and terms; non-trivial = merged segment with >1 document"}
 	props["C11"] = &propDef{gen: genC11, extra: legC11, rule: "CRC-32 of all bytes but the last four, footer fields vs loaded segment, returned byte count, byte-identical re-persist; built, merged, loaded (mem, file); plus: WriteTo of the same segment object into a healthy writer after a WriteTo that failed part-way reproduces the reference file"}
